@@ -91,6 +91,9 @@ let judges : (string * (Gsext.sx -> Gsext.verdict)) list = [
   "C15", Gsext.judge_C15;
   "snaps", Gsext.judge_snaps;
   "trace", Gsext.judge_trace;
+  "parse", Gsext.judge_parse;
+  "amostruct", Gsext.judge_amo_struct;
+  "tracepb", Gsext.judge_trace_pb;
 ]
 
 let () =
